@@ -50,7 +50,7 @@ func verifResultName(name string) string {
 // result name: every result the run saves is declared by the action
 // (ResultContainer, what inspect.Results collects) under the same key, and
 // its category is among the declared ones when categories are declared.
-// cover: set_run_result, open_ticket, transfer_airtime, call_classifier, call_webhook, call_resthook, category-checked
+// cover: set_run_result, open_ticket, transfer_airtime, call_classifier, call_webhook, call_resthook, resthook-subscribers-called, category-checked
 func VerifC20_ActionResults() {
 	name := verifResultName("result-name")
 	var act flows.Action
@@ -106,6 +106,17 @@ func VerifC20_ActionResults() {
 	var declared []*flows.ResultInfo
 	if rc, ok := act.(inspect.ResultContainer); ok {
 		rc.Results(func(i *flows.ResultInfo) { declared = append(declared, i) })
+	}
+	if kind == 5 {
+		// the resthook really had subscribers that were called
+		called := 0
+		for _, e := range sess.Runs()[0].Events() {
+			if e.Type() == events.TypeWebhookCalled {
+				called++
+			}
+		}
+		zzverif.Assert(called == 2, "setup: the subscribers of the resthook were not called")
+		zzverif.Cover("resthook-subscribers-called")
 	}
 	for key, res := range sess.Runs()[0].Results() {
 		var info *flows.ResultInfo
